@@ -410,6 +410,7 @@ func main() {
 	snake := flag.Bool("snake", false, "C18: print camelToSnake of every string over a small alphabet (hex in, hex out)")
 	snapchild := flag.String("snapchild", "", "internal: judge a copied database directory in this (child) process")
 	snaplower := flag.String("snaplower", "0", "internal: lower-case directory names in the copy")
+	timekeym := flag.Bool("timekey", false, "C02/C13: index keys of time.Time values, AssignIndex back-conversion and comparisons between stored instants, for the model (driver -timekey)")
 	namesm := flag.Bool("names", false, "C18: uuidExt / uuid test of uuidsFromDir on generated entry names, for the model (driver -names)")
 	descrm := flag.Bool("descr", false, "C16/C17: descriptors of run-time struct types, constraint walks and compatibility verdicts, for the model (driver -descr) + oracles")
 	tagsm := flag.Bool("tags", false, "C16: descriptors derived from struct tags in every option order + end-to-end probes")
@@ -470,6 +471,11 @@ func main() {
 		for i := 0; i < *n; i++ {
 			runLin(w, *first+i, *seed*1000003+int64(*first+i))
 		}
+		w.Flush()
+		return
+	}
+	if *timekeym {
+		runTimeKey(w, *seed, *n)
 		w.Flush()
 		return
 	}
